@@ -150,9 +150,18 @@ __CPROVER_assigns(self->cache_->_cache)
 /* P1 */ __CPROVER_ensures((key == GKEY && G_wv && self->cache_->_cache.has) ==> self->cache_->_cache.e.expiration <= G_now + (int64_t)G_wttl)
 /* P3 a single answer record with a TTL > 0 and nothing else: stored, and it expires exactly TTL after now */
 #define PUT_SINGLE (key == GKEY && G_single && result->answers.p[0].ttl > 0 && result->answers.p[0].ttl != 0xFFFFFFFFu)
-/* P3a */ __CPROVER_ensures(PUT_SINGLE ==> self->cache_->_cache.has)
 /* P2 the entry holds this result */
 __CPROVER_ensures((key == GKEY && self->cache_->_cache.has) ==> self->cache_->_cache.e.value == G_result_id)
+;
+
+/* proof "put_stored": P3a alone */
+void put_core_stored_contract(DnsCache *self, uint64_t key, const DnsResult *result)
+__CPROVER_requires(IORA_TRUE && __CPROVER_is_fresh(self, sizeof(*self)) && SELF_OK && __CPROVER_is_fresh(self->cache_, sizeof(*self->cache_)))
+__CPROVER_requires(TIME_OK(G_now) && TTL_OK(self->cache_->_ttl))
+RESULT_FRESH
+WITNESS_BOUND
+__CPROVER_assigns(self->cache_->_cache)
+/* P3a */ __CPROVER_ensures(PUT_SINGLE ==> self->cache_->_cache.has)
 ;
 
 /* proof "put_exact": P3b alone (measured: P3a and P3b take 7 s each, together in one run > 300 s) */
